@@ -103,6 +103,7 @@ class Beh:
     zero_cols: bool = False
     cancel_raises: bool = False
     big: int = 0  # pad emitted strings to about this many bytes (crosses shm/external thresholds)
+    alias_in: int = 0  # exchange: 1/2 = answer with the INPUT's own arrays (zero-copy: the output aliases the input's buffers)
 
 
 class World:
@@ -267,6 +268,14 @@ def run_step(state: Any, out: OutputCollector, ctx: CallContext, inp: AnnotatedB
             assert inp is not None
             if inp.batch.schema != XIN_SCHEMA:
                 w.record("bad-input-schema", tag, pos, str(inp.batch.schema))
+            if beh.alias_in and inp.batch.schema == XIN_SCHEMA:
+                # the output shares its buffers with the input batch (which may live in a shared-memory region); a slice
+                # or extra metadata gives it a different layout, so writing it is not an in-place identity copy
+                src = inp.batch.slice(1) if beh.alias_in == 2 and inp.batch.num_rows > 1 else inp.batch
+                md = dict(op[1]) if len(op) > 1 and op[1] else {}
+                md["alias"] = "x" * (37 if beh.alias_in == 2 else 5)
+                out.emit(pa.RecordBatch.from_arrays([src.column("v"), src.column("w")], schema=XOUT_SCHEMA), metadata=md)
+                continue
             vs = inp.batch.column("v").to_pylist()
             ws = inp.batch.column("w").to_pylist()
             out.emit_pydict({"o": [None if v is None else v * 2 + tag for v in vs], "w": [pad(x, beh.big) if x is not None else x for x in ws]},
